@@ -26,6 +26,7 @@ import tempfile
 import textwrap
 import time as _time
 import types
+import warnings
 
 import numpy as np
 import z3
@@ -702,6 +703,8 @@ CONST_FILES = {
     'chain3': [('deltaRTi', None), ('deltaRTe', 'deltaRTi'), ('deltaRN0', '2.0*deltaRTe'), ('deltaR', '4.0*deltaRN0/deltaRTi'), ('vMax', None), ('vMin', '-vMax')],
     'mixed': [('R0', None), ('zMax', 'R0*2*pi'), ('kTi', None), ('kTe', 'kTi'), ('CTi', None), ('CTe', '(CTi+kTe)*2')],
     'chain4': [('B0', None), ('eps', 'B0/4'), ('eps0', 'eps-1'), ('kN0', 'eps0*eps0'), ('dt', None)],
+    # names ending in e / E directly in front of an operator
+    'enames': [('kTi', None), ('kTe', 'kTi'), ('CTe', 'kTe-0.25'), ('deltaRTi', None), ('deltaRTe', 'deltaRTi*2'), ('deltaR', 'deltaRTe+deltaRTi')],
 }
 
 
@@ -975,12 +978,21 @@ def h5_item(item):
             h = real.getLayoutHandler(comm, dict(layouts), list(P2), eta)
             g = gm.Grid(eta, [None] * nd, h, lay, comm=comm)
             out = []
+            g.getAllData()[...] = -1.0          # the storage holds something else before the load
             g.loadFromFile('folder')
             out.append(np.array_equal(g.getAllData(), block(h.getLayout(lay), G * 3)))
             g.loadFromFile('folder', 4)
             out.append(np.array_equal(g.getAllData(), block(h.getLayout(lay), G)))
+            # the loaded field is the grid's field from then on: it survives a layout change
+            other = [k for k in layouts if k != lay][0]
+            with warnings.catch_warnings():
+                warnings.simplefilter('ignore')
+                g.setLayout(other)
+            out.append(np.array_equal(g.getAllData(), block(h.getLayout(other), G)))
             return out
-        for rk, (a, b) in enumerate(simmpi.World(int(np.prod(P2))).run(reader)):
+        for rk, (a, b, c_) in enumerate(simmpi.World(int(np.prod(P2))).run(reader)):
+            if not c_:
+                probs.append('rank %d of %s: after loading a checkpoint and changing the layout the grid no longer holds the loaded field' % (rk, list(P2)))
             if not a:
                 probs.append('rank %d of %s: loading the latest checkpoint does not reproduce the field written by %s processes' % (rk, list(P2), list(P)))
             if not b:
@@ -1280,7 +1292,7 @@ def main():
     ditems = [(ld, rk, K, sv) for ld in (False, True) for rk in (0, 1) for sv in range(1, SMAX + 1)]
     for r in H.pmap(driver_item, ditems, run.args.jobs):
         run.merge(r)
-    citems = [('chain3', None), ('mixed', None)] + ([] if quick else [('chain4', None)])
+    citems = [('chain3', None), ('mixed', None), ('enames', None)] + ([] if quick else [('chain4', None)])
     caught = {}
     for r in H.pmap(constants_item, citems + [('chain3', CONST_CANARY)], run.args.jobs):
         if r.get('canary'):
